@@ -37,6 +37,7 @@ type c08cfg struct {
 	pCloseAfter, pSilentKill, pCloseInFlight int
 	idleKill time.Duration
 	gapMax   int
+	massKill bool
 	w        *W1
 	attempts map[int][]attempt // call -> writes
 	opener   map[int]int       // conn -> call index that opened it (-1 unknown)
@@ -59,7 +60,8 @@ func c08Setup(rc *RunCtx) simrt.Config {
 	for i := 0; i < c.callers; i++ {
 		c.perCall = append(c.perCall, 1+r.Choose(8))
 	}
-	c.burst = []int{0, 0, 3, 6}[r.Choose(4)]
+	c.burst = []int{0, 0, 3, 6, 8}[r.Choose(5)]
+	c.massKill = c.burst >= 6 && r.Choose(2) == 0
 	pick := func(vals ...int) int { return vals[r.Choose(len(vals))] }
 	c.pCloseAfter = pick(0, 20, 60, 100)
 	c.pSilentKill = pick(0, 20, 60)
@@ -72,6 +74,7 @@ func c08Setup(rc *RunCtx) simrt.Config {
 	rc.Cfg["callers"] = c.callers
 	rc.Cfg["per_call"] = c.perCall
 	rc.Cfg["burst"] = c.burst
+	rc.Cfg["mass_kill"] = c.massKill
 	rc.Cfg["p_close_after"] = c.pCloseAfter
 	rc.Cfg["p_silent_kill"] = c.pSilentKill
 	rc.Cfg["p_close_in_flight"] = c.pCloseInFlight
@@ -174,6 +177,21 @@ func c08Main(rc *RunCtx) {
 	}
 	if c.burst > 0 && c.gapMax > 0 {
 		simrt.Sleep(0, time.Duration(simrt.Choose(c.gapMax+1))*time.Millisecond)
+	}
+	if c.burst > 0 && c.massKill {
+		// every connection the burst left behind dies at once (server restart, NAT
+		// flush): the next queries meet a pool full of dead connections
+		for _, cc := range rc.Net.Conns() {
+			if cc.IsClosed() || cc.Peer().IsClosed() {
+				continue
+			}
+			if simrt.Choose(2) == 0 {
+				cc.Peer().KillSilently()
+			} else {
+				cc.Peer().Close()
+			}
+		}
+		simrt.Fault("srv_mass_kill_of_idle_conns")
 	}
 	for ci := 0; ci < c.callers; ci++ {
 		ci := ci
